@@ -7,4 +7,5 @@ INVARIANT LimitRespected
 INVARIANT SidedOnlyEdge
 INVARIANT CountExact
 INVARIANT DropnaExact
+INVARIANT FillFrameExact
 CHECK_DEADLOCK FALSE
